@@ -283,6 +283,8 @@ structure Resolved where
   stretch : Bool
   /-- `directive or ignore or not place or free`: contributes nothing to the graphs -/
   skip : Bool
+  /-- the class is a plain two-node component (`node_pinnames = ('+', '-')`, no auxiliary nodes): the Bipole family -/
+  onePort : Bool
 deriving Repr
 
 /-- Cpt.tcoords with a given rotation function (`rotCode` = the code, `rotExact` = the meaning) -/
@@ -297,7 +299,7 @@ def resolveWith (rot : Rat → Rat × Rat → Option (Rat × Rat)) (spacing : Ra
   let some sz := e.size row | throw "bad-size"
   let some sc := e.scale | throw "bad-scale"
   if e.ignore then
-    return ⟨e.name, e.cls, [], ang, sz, e.stretch row, true⟩
+    return ⟨e.name, e.cls, [], ang, sz, e.stretch row, true, false⟩
   let nodes := eltNodes all e row
   let pins ← requiredPins e row nodes
   if pins.length != nodes.length then throw "pin-mismatch"
@@ -311,7 +313,7 @@ def resolveWith (rot : Rat → Rat × Rat → Option (Rat × Rat)) (spacing : Ra
     match rot ang (p.x * row.w, p.y * h) with
     | some v => pure (v.1 * s, v.2 * s)
     | none => throw "unsupported-angle")
-  return ⟨e.name, e.cls, nodes.zip tc, ang, sz, e.stretch row, skip⟩
+  return ⟨e.name, e.cls, nodes.zip tc, ang, sz, e.stretch row, skip, row.nodePinnames == ["+", "-"] && row.aux.isEmpty⟩
 
 /-! ### graphs (SchemPlacerBase._make_graphs) -/
 
@@ -390,6 +392,18 @@ def Resolved.item (k : Rat) (r : Resolved) : Option Item :=
     else some (.body (r.body k))
   | _ => some (.body (r.body k))
 
+/-- the meaning of the hints of an element, as the property states it: for a two-node component the direction is
+    read off the hinted angle alone (`right`/`up`/`left`/`down` + `rotate`, any multiple of 90 degrees) and the length
+    is size · node_spacing -- no pin table involved; a multi-pin component is a rigid/stretchy body of its pins. -/
+def Resolved.specItem (k : Rat) (r : Resolved) : Option Item :=
+  if r.skip then none else
+  match r.onePort, r.pins with
+  | true, [(a, _), (b, _)] =>
+    match dirOfAngle r.angle with
+    | some d => some (.hint ⟨a, b, d, r.size * k, !r.stretch⟩)
+    | none => r.item k
+  | _, _ => r.item k
+
 /-- sizes for which the hints have the meaning stated by the property: non-negative for two-node hints,
     positive for multi-pin bodies -/
 def Resolved.sizeOk (k : Rat) (r : Resolved) : Bool :=
@@ -415,8 +429,10 @@ def resolveAll (rot : Rat → Rat × Rat → Option (Rat × Rat)) (n : Netlist) 
 def specOf (n : Netlist) : Except String Spec := do
   let (all, rs) ← resolveAll rotExact n
   if !(decide (0 < n.spacing)) then throw "bad-spacing"
-  if !(rs.all (Resolved.sizeOk n.spacing)) then throw "size-outside-spec"
-  return ⟨all, rs.filterMap (Resolved.item n.spacing)⟩
+  if !(rs.all (fun r => r.skip || match r.specItem n.spacing with
+        | some (.hint _) => decide (0 ≤ r.size)
+        | _ => decide (0 < r.size))) then throw "size-outside-spec"
+  return ⟨all, rs.filterMap (Resolved.specItem n.spacing)⟩
 
 /-- the model of what the code builds -/
 def graphsOf (n : Netlist) : Except String (List String × Graphs) := do
@@ -477,6 +493,11 @@ def revTopoB (edges : List WEdge) : List String → Bool
   | [] => true
   | v :: earlier => edges.all (fun e => !(e.src == v) || !((v :: earlier).contains e.dst)) && revTopoB edges earlier
 
+/-- reverse-topological order (last processed first): every edge leaving the head goes nowhere in the list -/
+def RevTopo (edges : List WEdge) : List String → Prop
+  | [] => True
+  | v :: earlier => (∀ e ∈ edges, e.src = v → e.dst ∉ v :: earlier) ∧ RevTopo edges earlier
+
 /-- the model's layout of one axis: contract linked nodes, longest path over class representatives -/
 def placeAxis (k : Rat) (nodes : List String) (links : List (String × String)) (edges : List Edge) :
     Option (List (String × Rat)) :=
@@ -486,6 +507,8 @@ def placeAxis (k : Rat) (nodes : List String) (links : List (String × String)) 
   match topo reps wes with
   | none => none
   | some order =>
+    -- side conditions of `longest_path_feasible`, checked executably
+    if !(revTopoB wes order.reverse) || order.length != (dedup order).length then none else
     let d := lp wes order.reverse
     some (nodes.map (fun n => (n, d (repOf parts n))))
 
